@@ -1,5 +1,5 @@
 """C03 - responder answers exactly what is registered, minus what the querier knows."""
-from contracts import records, registry_model
+from contracts import records, registry_model, responder_model
 
 PROP = 'C03'
 ASSUMPTIONS = ['a registered ServiceInfo has a server name (set_server_if_missing ran: the API does this before registration)',
@@ -11,10 +11,13 @@ def build(R):
     records.install(R)
     registry_model.install(R)
     registry_model.install_getters(R)
+    responder_model.install_strategies(R)
 
 
 def configure(ctx, R):
     records.configure(ctx)
+    registry_model.install_generators(R)
+    responder_model.install_generators(R)
 
 
-NO_CONCRETE = {'ServiceRegistry._remove_from_index', 'ServiceRegistry._add', 'ServiceRegistry._remove'}
+NO_CONCRETE = set()
